@@ -215,7 +215,11 @@ _public_ m_thpool_t *m_thpool_new(uint8_t thread_count, m_thpool_flags flags) {
 
         err = 0;
         if (!(flags & M_THPOOL_LAZY)) {
-            /* Start worker threads */
+            /*
+             * Start worker threads; should only some of them be created,
+             * the pool is given up: those must be stopped and joined first.
+             */
+            pool->init_state |= INITED_STARTED;
             err = add_threads(pool, thread_count);
         }
     } while (false);
